@@ -224,14 +224,60 @@ theorem step_tick_realms (rt : Router) (ms : Nat) (hn : (rt.realms.map (·.1)).N
 
 /-! ### equations of `Router.step` -/
 
+/-- the router after the on-demand creation of realm `name` from the realm template
+    (`Config.RealmTemplate`): unchanged unless the realm is absent, a template is configured and
+    `Realm.create` accepts the template for that name -/
+def ensureRealm (rt : Router) (name : String) : Router :=
+  match rt.realm? name, rt.template with
+  | none, some t =>
+    match Realm.create { t with uri := name } with
+    | some r => { rt with realms := rt.realms ++ [(name, { r with pubCount := rt.created * 1000000 })],
+                          created := rt.created + 1 }
+    | none => rt
+  | _, _ => rt
+
 theorem step_join (rt : Router) (name : String) (k : SessKey) (l : Bool) (d : Dict) (ro : Roles) (c : Nat) :
     rt.step (.join name k l d ro c) =
-      if rt.closed then ({ refused := true }, rt) else
-      match rt.realm? name with
-      | none => ({ refused := true }, rt)
+      if rt.closed || name == "" then ({ refused := true }, rt) else
+      match (rt.ensureRealm name).realm? name with
+      | none => ({ refused := true }, rt.ensureRealm name)
       | some r =>
         (merge {} (r.step (.join k l d ro c)).1,
-         { rt.setRealm name (r.step (.join k l d ro c)).2 with sessRealm := rt.sessRealm ++ [(k, name)] }) := rfl
+         { (rt.ensureRealm name).setRealm name (r.step (.join k l d ro c)).2 with
+             sessRealm := (rt.ensureRealm name).sessRealm ++ [(k, name)] }) := rfl
+
+/-- what `ensureRealm` can do: nothing, or append one fresh realm named `name` created from the
+    template -/
+theorem ensureRealm_cases (rt : Router) (name : String) :
+    rt.ensureRealm name = rt ∨
+    (rt.realm? name = none ∧ ∃ t r, rt.template = some t ∧ Realm.create { t with uri := name } = some r ∧
+      rt.ensureRealm name =
+        { rt with realms := rt.realms ++ [(name, { r with pubCount := rt.created * 1000000 })],
+                  created := rt.created + 1 }) := by
+  unfold ensureRealm
+  split
+  · rename_i t hr ht
+    split
+    · rename_i r hc
+      exact Or.inr ⟨hr, t, r, ht, hc, rfl⟩
+    · exact Or.inl rfl
+  · exact Or.inl rfl
+
+theorem ensureRealm_fields (rt : Router) (name : String) :
+    (rt.ensureRealm name).sessRealm = rt.sessRealm ∧ (rt.ensureRealm name).closed = rt.closed ∧
+    (rt.ensureRealm name).template = rt.template ∧
+    ((rt.ensureRealm name).realms = rt.realms ∨
+      (rt.realm? name = none ∧ ∃ r, (rt.ensureRealm name).realms = rt.realms ++ [(name, r)])) := by
+  rcases ensureRealm_cases rt name with h | ⟨hn, t, r, _, _, h⟩
+  · rw [h]; exact ⟨rfl, rfl, rfl, Or.inl rfl⟩
+  · rw [h]; exact ⟨rfl, rfl, rfl, Or.inr ⟨hn, _, rfl⟩⟩
+
+theorem others_ensureRealm (rt : Router) (name : String) : (rt.ensureRealm name).others name = rt.others name := by
+  unfold others
+  rcases (ensureRealm_fields rt name).2.2.2 with h | ⟨_, r, h⟩
+  · rw [h]
+  · rw [h, List.filter_append]
+    simp
 
 theorem step_sess (rt : Router) (k : SessKey) (op : Op) :
     rt.step (.sess k op) =
@@ -264,20 +310,23 @@ theorem step_close (rt : Router) :
       (rt.realms.foldl (fun (acc : RObserved) p => merge acc (shutdownRealm p.2).1) {},
        { rt with realms := [], closed := true }) := rfl
 
-theorem step_join_closed {rt : Router} (h : rt.closed = true) (name : String) (k : SessKey) (l : Bool) (d : Dict)
-    (ro : Roles) (c : Nat) : rt.step (.join name k l d ro c) = ({ refused := true }, rt) := by
-  rw [step_join]; simp [h]
+theorem step_join_refused {rt : Router} {name : String} (h : (rt.closed || name == "") = true) (k : SessKey) (l : Bool)
+    (d : Dict) (ro : Roles) (c : Nat) : rt.step (.join name k l d ro c) = ({ refused := true }, rt) := by
+  rw [step_join, if_pos h]
 
-theorem step_join_none {rt : Router} {name : String} (h : rt.realm? name = none) (k : SessKey) (l : Bool) (d : Dict)
-    (ro : Roles) (c : Nat) : rt.step (.join name k l d ro c) = ({ refused := true }, rt) := by
-  rw [step_join, h]; simp
+theorem step_join_none {rt : Router} {name : String} (hc : (rt.closed || name == "") = false)
+    (h : (rt.ensureRealm name).realm? name = none) (k : SessKey) (l : Bool) (d : Dict)
+    (ro : Roles) (c : Nat) : rt.step (.join name k l d ro c) = ({ refused := true }, rt.ensureRealm name) := by
+  rw [step_join, hc, h]; simp
 
-theorem step_join_some {rt : Router} {name : String} {r : Realm} (hc : rt.closed = false) (h : rt.realm? name = some r)
+theorem step_join_some {rt : Router} {name : String} {r : Realm} (hc : (rt.closed || name == "") = false)
+    (h : (rt.ensureRealm name).realm? name = some r)
     (k : SessKey) (l : Bool) (d : Dict) (ro : Roles) (c : Nat) :
     rt.step (.join name k l d ro c) =
       (merge {} (r.step (.join k l d ro c)).1,
-       { rt.setRealm name (r.step (.join k l d ro c)).2 with sessRealm := rt.sessRealm ++ [(k, name)] }) := by
-  rw [step_join, h, hc]; simp
+       { (rt.ensureRealm name).setRealm name (r.step (.join k l d ro c)).2 with
+           sessRealm := (rt.ensureRealm name).sessRealm ++ [(k, name)] }) := by
+  rw [step_join, hc, h]; simp
 
 theorem step_sess_unknown {rt : Router} {k : SessKey} (h : rt.realmOf k = none) (op : Op) :
     rt.step (.sess k op) = ({}, rt) := by
@@ -320,19 +369,41 @@ theorem Inv.setRealm {rt : Router} (hi : Inv rt) {A : String} {r' : Realm} (sr :
     · exact hr
     · exact (hi.conf p hp).mono (fun k hk => hs _ hk)
 
+/-- creating the joined realm from the template keeps the invariant: the name is fresh (the realm
+    was absent) and a new realm has no sessions -/
+theorem Inv.ensureRealm {rt : Router} (hi : Inv rt) (name : String) : Inv (rt.ensureRealm name) := by
+  rcases ensureRealm_cases rt name with h | ⟨hn, t, r, _, hcr, h⟩
+  · rw [h]; exact hi
+  · rw [h]
+    refine ⟨?_, ?_⟩
+    · show ((rt.realms ++ [(name, _)]).map (fun p : String × Realm => p.1)).Nodup
+      rw [List.map_append, List.nodup_append]
+      refine ⟨hi.names, by simp, ?_⟩
+      intro a ha b hb
+      have hb' : b = name := by simpa using hb
+      rw [hb']
+      obtain ⟨q, hq, rfl⟩ := List.mem_map.mp ha
+      exact realm?_none hn q hq
+    · intro p hp
+      rcases List.mem_append.mp hp with hp | hp
+      · exact hi.conf p hp
+      · rw [List.mem_singleton.mp hp]
+        exact create_conf (cfg := { t with uri := name }) hcr _
+
 theorem Inv.step {rt : Router} (hi : Inv rt) (rop : ROp) (hw : rop.wf) : Inv (rt.step rop).2 := by
   cases rop with
   | join name k l d ro c =>
-    cases hc : rt.closed with
-    | true => rw [step_join_closed hc]; exact hi
+    cases hc : (rt.closed || name == "") with
+    | true => rw [step_join_refused hc]; exact hi
     | false =>
-      cases hr : rt.realm? name with
-      | none => rw [step_join_none hr]; exact hi
+      have hi' : Inv (rt.ensureRealm name) := hi.ensureRealm name
+      cases hr : (rt.ensureRealm name).realm? name with
+      | none => rw [step_join_none hc hr]; exact hi'
       | some r =>
         rw [step_join_some hc hr]
-        refine hi.setRealm _ (fun x hx => List.mem_append_left _ hx) ?_
-        have h0 : Conf (fun k' => (k', name) ∈ rt.sessRealm ++ [(k, name)]) r := by
-          refine (hi.conf _ (realm?_mem hr)).mono ?_
+        refine hi'.setRealm _ (fun x hx => List.mem_append_left _ hx) ?_
+        have h0 : Conf (fun k' => (k', name) ∈ (rt.ensureRealm name).sessRealm ++ [(k, name)]) r := by
+          refine (hi'.conf _ (realm?_mem hr)).mono ?_
           intro k' hk'
           exact List.mem_append_left _ hk'
         refine (h0.step _ ?_).1
